@@ -360,6 +360,20 @@ def rule_R4(res, prog, cg, c, prop=None, rid="C02.R4", directions=("open", "seal
     dtls = bool(prog.by_name.get("dtlsChkReplayWindow"))
     seen = set()
     n = 0
+    dtls_bits = prog.enums.get("v_dtls_any") or 0
+
+    def has_dtls_arm(f):
+        import re as _re
+        from sa import cfgutil as cu
+        for b_ in f.blocks:
+            t_ = b_.get("term")
+            if t_ is None or "c" not in t_:
+                continue
+            for (tx_, tr_, nd_) in cu._cond_atoms(t_["c"], True):
+                m_ = _re.search(r"activeVersion & (\d+)\)", tx_)
+                if m_ and dtls_bits and int(m_.group(1)) & dtls_bits and not int(m_.group(1)) & ~dtls_bits:
+                    return True
+        return False
     for r in rows:
         flags = r["flags"] or 0
         if not flags & (fl["GCM"] | fl["CHACHA"]):
@@ -392,7 +406,11 @@ def rule_R4(res, prog, cg, c, prop=None, rid="C02.R4", directions=("open", "seal
                         continue        # no AAD in this (draft-version) arm
                     roots = bs.arg_roots(fn, arg)
                     need = list(req[role])
-                    if role == "aad" and dtls and "aad_dtls" in req:
+                    # DTLS: a callback that distinguishes DTLS versions takes the sequence number from the record header and
+                    # must bind epoch + sequence number into the AAD.  A callback without a DTLS arm (ChaCha20-Poly1305) keeps the
+                    # implicit per-key counter of TLS on both sides - loss-intolerant and not RFC 7905 DTLS, but the header fields are
+                    # then no input of the open at all and the base requirement (remSeq / seq) is the binding.
+                    if role == "aad" and dtls and "aad_dtls" in req and has_dtls_arm(fn):
                         need += req["aad_dtls"]
                     missing = [x for x in need if x not in roots]
                     crossed = [x for x in FORBID[direction] if x in roots]
